@@ -336,8 +336,16 @@ func TestDrive(t *testing.T) {
 	if err != nil {
 		t.Fatal(err)
 	}
+	// input: {"behs": [[step...]...], "seeds": [world seed per behaviour]} (or a bare list of behaviours)
 	var behs [][]step
-	if err := json.Unmarshal(raw, &behs); err != nil {
+	var wseeds []int64
+	var obj struct {
+		Behs  [][]step `json:"behs"`
+		Seeds []int64  `json:"seeds"`
+	}
+	if err := json.Unmarshal(raw, &obj); err == nil && obj.Behs != nil {
+		behs, wseeds = obj.Behs, obj.Seeds
+	} else if err := json.Unmarshal(raw, &behs); err != nil {
 		t.Fatal(err)
 	}
 	f, err := os.Create(out)
@@ -349,7 +357,11 @@ func TestDrive(t *testing.T) {
 	defer bw.Flush()
 	enc := json.NewEncoder(bw)
 	for bi, beh := range behs {
-		w := newWorld(t, seed+int64(bi))
+		ws := seed + int64(bi)
+		if bi < len(wseeds) {
+			ws = wseeds[bi] // accounts (hence every address order inside the keepers) depend only on this
+		}
+		w := newWorld(t, ws)
 		ln := line{Ev: "reset", Beh: bi, OK: true}
 		w.project(&ln)
 		_ = enc.Encode(ln)
